@@ -335,15 +335,25 @@ def db_from_lens(rng, scheme, cfg, lens, cls="profile", fix_config=True, kw_min=
         # keep the number of distinct files small: tokens cost n PRP calls each
         nfiles = min(max(max(lens), min(total_ids, 14)), 256 ** isz - 1)
         pool = gen_ids(rng, isz, nfiles, zero_rich)
+    # one database in six lets keywords of equal list length share ONE list object (db[b"colour"] = db[b"color"]):
+    # equal to a database with separate lists, but in-place work on one keyword's list then reaches the other
+    alias = rng.random() < 1 / 6
+    by_len = {}
+    aliased = 0
     for n in lens:
         kw = gen_keyword(rng, min(cp["kw_limit"], kw_max or cp["kw_limit"]), used, kw_min)
         used.add(kw)
+        if alias and n in by_len and rng.random() < 0.7:
+            db[kw] = by_len[n]
+            aliased += 1
+            continue
         ids = gen_ids(rng, isz, n, zero_rich, pool)
         if shared is not None and shared not in ids:
             ids[rng.randrange(len(ids))] = shared
         db[kw] = ids
+        by_len[n] = ids
     info = {"class": cls, "N": sum(len(v) for v in db.values()), "keywords": len(db),
-            "lens": sorted((len(v) for v in db.values()), reverse=True)[:8]}
+            "lens": sorted((len(v) for v in db.values()), reverse=True)[:8], "aliased_lists": aliased}
     if scheme == "CGKO06.SSE2" and fix_config:
         files = len({i for v in db.values() for i in v})
         cfg["param_n"] = files + rng.choice([0, 0, 3])
